@@ -51,6 +51,9 @@ pub struct Case {
     pub ops: Vec<OpKind>,
     /// preference order in which parked threads are released
     pub order: Vec<u8>,
+    /// which concrete operation of its kind each caller uses (GPU and back-end proxies have several per kind)
+    #[serde(default)]
+    pub vars: Vec<u8>,
 }
 
 const HOLD: [&str; 3] = ["fe.reply_wait", "be_req.reply_wait", "gpu.reply_wait"];
@@ -63,8 +66,9 @@ enum Ep {
     Gpu(GpuBackend),
 }
 
-/// perform the call of kind `k` with identity `id`; Ok(identity found in the result, if the result carries one)
-fn call(ep: &Ep, k: OpKind, id: u32) -> Result<Option<u32>, String> {
+/// perform the call of kind `k` with identity `id` (variant `var` of that kind); Ok(identity found in the result, if
+/// the result carries one)
+fn call(ep: &Ep, k: OpKind, id: u32, var: u8) -> Result<Option<u32>, String> {
     match ep {
         Ep::Fe(f) => match k {
             OpKind::Reply => f.get_vring_base(id as usize).map(|v| Some(v - 1000)).map_err(|e| format!("{e:?}")),
@@ -80,19 +84,63 @@ fn call(ep: &Ep, k: OpKind, id: u32) -> Result<Option<u32>, String> {
         Ep::Be(b) => {
             let mut u = VhostUserSharedMsg::default();
             u.uuid = uuid::Uuid::from_bytes([id as u8 + 1; 16]);
-            match k {
-                OpKind::Reply | OpKind::Acked => b.shared_object_add(&u).map(|_| None).map_err(|e| e.to_string()),
-                _ => b.shared_object_remove(&u).map(|_| None).map_err(|e| e.to_string()),
+            let mm = vhost::vhost_user::message::VhostUserMMap { shmid: id as u8 + 1, fd_offset: 0, shm_offset: 0x1000, len: 0x1000, flags: 1, ..Default::default() };
+            let file = crate::fdtrack::memfd(4096);
+            let e = |e: std::io::Error| e.to_string();
+            match var % 5 {
+                0 => b.shared_object_add(&u).map(|_| None).map_err(e),
+                1 => b.shared_object_remove(&u).map(|_| None).map_err(e),
+                2 => b.shared_object_lookup(&u, &file).map(|_| None).map_err(e),
+                3 => b.shmem_map(&mm, &file).map(|_| None).map_err(e),
+                _ => b.shmem_unmap(&mm).map(|_| None).map_err(e),
             }
         }
-        Ep::Gpu(g) => match k {
-            OpKind::Reply => g.get_edid(&VhostUserGpuEdidRequest { scanout_id: id }).map(|r| Some(r.size)).map_err(|e| e.to_string()),
-            OpKind::Reply2 => g.get_protocol_features().map(|v| Some(v.value as u32)).map_err(|e| e.to_string()),
-            OpKind::Acked => g
-                .update_dmabuf_scanout(&VhostUserGpuUpdate { scanout_id: id, x: 0, y: 0, width: 1, height: 1 })
-                .map(|_| None)
-                .map_err(|e| e.to_string()),
-            OpKind::Forget => g.set_scanout(&VhostUserGpuScanout { scanout_id: id, width: 1, height: 1 }).map(|_| None).map_err(|e| e.to_string()),
+        Ep::Gpu(g) => {
+            let e = |e: std::io::Error| e.to_string();
+            match k {
+                OpKind::Reply => match var % 2 {
+                    0 => g.get_edid(&VhostUserGpuEdidRequest { scanout_id: id }).map(|r| Some(r.size)).map_err(e),
+                    _ => g.get_display_info().map(|_| None).map_err(e),
+                },
+                OpKind::Reply2 => g.get_protocol_features().map(|v| Some(v.value as u32)).map_err(e),
+                OpKind::Acked => g.update_dmabuf_scanout(&VhostUserGpuUpdate { scanout_id: id, x: 0, y: 0, width: 1, height: 1 }).map(|_| None).map_err(e),
+                OpKind::Forget => {
+                    use vhost::vhost_user::gpu_message::{VhostUserGpuCursorPos, VhostUserGpuCursorUpdate, VhostUserGpuDMABUFScanout, VhostUserGpuDMABUFScanout2};
+                    let pos = VhostUserGpuCursorPos { scanout_id: id, x: 1, y: 2 };
+                    let dm = VhostUserGpuDMABUFScanout { scanout_id: id, width: 1, height: 1, fd_width: 1, fd_height: 1, ..Default::default() };
+                    let file = crate::fdtrack::memfd(4096);
+                    match var % 8 {
+                        0 => g.set_scanout(&VhostUserGpuScanout { scanout_id: id, width: 1, height: 1 }),
+                        1 => g.cursor_pos(&pos),
+                        2 => g.cursor_pos_hide(&pos),
+                        3 => g.cursor_update(&VhostUserGpuCursorUpdate { pos, hot_x: 0, hot_y: 0 }, &[0u8; 4 * 64 * 64]),
+                        4 => g.update_scanout(&VhostUserGpuUpdate { scanout_id: id, x: 0, y: 0, width: 2, height: 2 }, &[7u8; 16]),
+                        5 => g.set_dmabuf_scanout(&dm, Some(&file)),
+                        6 => g.set_dmabuf_scanout2(&VhostUserGpuDMABUFScanout2 { dmabuf_scanout: dm, modifier: 0 }, Some(&file)),
+                        _ => g.set_protocol_features(&VhostUserU64::new(0)),
+                    }
+                    .map(|_| None)
+                    .map_err(e)
+                }
+            }
+        }
+    }
+}
+
+/// the caller a request frame belongs to, where the request carries its caller's identity
+fn frame_owner(ep: Endpoint, f: &spec::Frame) -> Option<u32> {
+    match ep {
+        Endpoint::Frontend => match f.code {
+            fe::GET_VRING_BASE | fe::SET_VRING_NUM if f.body.len() >= 4 => Some(spec::rd_u32(&f.body, 0)),
+            fe::GET_CONFIG if f.body.len() >= 4 => Some(spec::rd_u32(&f.body, 0) / 4),
+            fe::SET_LOG_BASE if f.body.len() >= 8 => Some(spec::rd_u64(&f.body, 0) as u32),
+            _ => None,
+        },
+        Endpoint::BackendProxy => f.body.first().map(|b| (*b as u32).wrapping_sub(1)),
+        Endpoint::Gpu => match f.code {
+            spec::gpu::GET_PROTOCOL_FEATURES | spec::gpu::SET_PROTOCOL_FEATURES | spec::gpu::GET_DISPLAY_INFO => None,
+            _ if f.body.len() >= 4 => Some(spec::rd_u32(&f.body, 0)),
+            _ => None,
         },
     }
 }
@@ -140,6 +188,7 @@ fn answer(ep: Endpoint, f: &spec::Frame, gpu_seq: &mut u32) -> Option<Vec<u8>> {
                 Some(spec::msg(f.code, spec::gpu::F_REPLY, &spec::b_u64(*gpu_seq as u64 - 1)))
             }
             spec::gpu::DMABUF_UPDATE => Some(spec::msg(f.code, spec::gpu::F_REPLY, &[])),
+            spec::gpu::GET_DISPLAY_INFO => Some(spec::msg(f.code, spec::gpu::F_REPLY, &vec![0u8; spec::GPU_DISPLAY_INFO_SIZE])),
             _ => None,
         },
     }
@@ -211,6 +260,7 @@ fn make_endpoint(ep: Endpoint) -> Result<(Ep, Peer), String> {
             let b = Backend::from_stream(theirs);
             b.set_reply_ack_flag(true);
             b.set_shared_object_flag(true);
+            b.set_shmem_flag(true);
             Ep::Be(b)
         }
         Endpoint::Gpu => Ep::Gpu(GpuBackend::from_stream(theirs)),
@@ -231,12 +281,13 @@ pub fn run_case(ctx: &mut Ctx, c: &Case) -> Result<(), String> {
     let mut handles = Vec::new();
     let spawn = |i: usize, handles: &mut Vec<std::thread::JoinHandle<()>>| {
         let (ep, k, results, tidcell) = (ep.clone(), c.ops[i], results.clone(), tidcell.clone());
+        let var = c.vars.get(i).copied().unwrap_or(0);
         handles.push(
             std::thread::Builder::new()
                 .name(format!("c10_caller{i}"))
                 .spawn(move || {
                     tidcell.lock().unwrap()[i] = Some(unsafe { libc::gettid() });
-                    let r = call(&ep, k, i as u32);
+                    let r = call(&ep, k, i as u32, var);
                     results.lock().unwrap()[i] = Some(r);
                 })
                 .unwrap(),
@@ -287,6 +338,26 @@ pub fn run_case(ctx: &mut Ctx, c: &Case) -> Result<(), String> {
             // (1) a request arrived: every earlier request that awaits an answer must have been consumed,
             // i.e. its caller must not be parked at reply_wait any more
             for fi in &new {
+                // (0) a request that carries its caller's identity arrived while a *different* caller sits between
+                // 'request written' and 'reply read': a second request inside an open transaction
+                // (stream order decides: the parked caller's own request must precede the foreign one)
+                if let Some(owner) = frame_owner(c.endpoint, &peer.frames[*fi]) {
+                    for p in sched.parked() {
+                        let Some(i) = p.thread.strip_prefix("c10_caller").and_then(|x| x.parse::<u32>().ok()) else { continue };
+                        if i == owner {
+                            continue;
+                        }
+                        let own_req = (0..peer.frames.len()).rev().find(|k| frame_owner(c.endpoint, &peer.frames[*k]) == Some(i));
+                        if let Some(k) = own_req {
+                            if k < *fi {
+                                return Err(format!(
+                                    "request #{fi} (code {}, written by caller {owner}) follows request #{k} of caller {i} on the socket, but caller {i} is still between writing its request and reading the reply",
+                                    peer.frames[*fi].code
+                                ));
+                            }
+                        }
+                    }
+                }
                 let parked = sched.parked();
                 // the caller of frame fi is the most recently parked/finished one; any *other* parked caller
                 // is waiting for a reply while this request was written
@@ -400,7 +471,7 @@ pub fn run_stress(ctx: &mut Ctx, c: &StressCase) -> Result<(), String> {
                 if endpoint == Endpoint::Gpu && k == OpKind::Reply2 {
                     continue; // sequence-numbered identity needs the controlled run
                 }
-                match call(&ep, k, t as u32) {
+                match call(&ep, k, t as u32, (j / 4) as u8) {
                     Err(e) => {
                         *err.lock().unwrap() = Some(format!("thread {t} call {j} ({k:?}): error {e}"));
                         return;
@@ -640,7 +711,7 @@ pub fn run_fault_case(ctx: &mut Ctx, c: &FaultCase) -> Result<(), String> {
     let (ep, mut peer) = make_endpoint(c.endpoint)?;
     let ep2 = ep.clone();
     let kind = c.kind;
-    let first = std::thread::Builder::new().name("c10_fault_first".into()).spawn(move || call(&ep, kind, 1)).map_err(|e| e.to_string())?;
+    let first = std::thread::Builder::new().name("c10_fault_first".into()).spawn(move || call(&ep, kind, 1, 0)).map_err(|e| e.to_string())?;
     // wait for the request to be on the wire
     let t0 = Instant::now();
     while peer.frames.is_empty() && t0.elapsed() < BOUND {
@@ -680,7 +751,7 @@ pub fn run_fault_case(ctx: &mut Ctx, c: &FaultCase) -> Result<(), String> {
         return Err(format!("{c:?}: the call returned Ok({:?}) although no reply to it was ever sent", r1.unwrap()));
     }
     // the lock must be free again: a fire-and-forget call on another clone returns (with whatever result)
-    let second = std::thread::Builder::new().name("c10_fault_second".into()).spawn(move || call(&ep2, OpKind::Forget, 2)).map_err(|e| e.to_string())?;
+    let second = std::thread::Builder::new().name("c10_fault_second".into()).spawn(move || call(&ep2, OpKind::Forget, 2, 0)).map_err(|e| e.to_string())?;
     let _ = wait(second, "a later call on another clone")?;
     ctx.class(&format!("fault_{:?}", c.fault));
     ctx.nontrivial(&("fault", c.endpoint, c.kind, c.fault));
@@ -725,14 +796,14 @@ pub fn run(ctx: &mut Ctx) {
         for a in kinds {
             for b in kinds {
                 for order in perms(2) {
-                    space.push(Case { endpoint, ops: vec![a, b], order });
+                    space.push(Case { endpoint, ops: vec![a, b], order, vars: vec![] });
                 }
                 for c3 in kinds {
                     let all3 = ctx.tier == crate::engine::Tier::Thorough;
                     let orders = perms(3);
                     for (oi, order) in orders.into_iter().enumerate() {
                         if all3 || oi == (a as usize + b as usize + c3 as usize) % 6 {
-                            space.push(Case { endpoint, ops: vec![a, b, c3], order });
+                            space.push(Case { endpoint, ops: vec![a, b, c3], order, vars: vec![] });
                         }
                     }
                 }
@@ -740,7 +811,11 @@ pub fn run(ctx: &mut Ctx) {
         }
     }
     let reps = ctx.tier.pick(2usize, 10usize);
-    let space: Vec<Case> = (0..reps).flat_map(|_| space.clone()).collect();
+    let mut space: Vec<Case> = (0..reps).flat_map(|_| space.clone()).collect();
+    // walk through the concrete operations of each kind (8 fire-and-forget GPU requests, 2 reply-bearing ones, 5 back-end requests)
+    for (n, case) in space.iter_mut().enumerate() {
+        case.vars = (0..case.ops.len()).map(|i| ((n / 3 + i * 3) % 40) as u8).collect();
+    }
     ctx.extra.insert("controlled_runs".into(), json!(space.len()));
     ctx.enumerate("controlled", space, |ctx, c| run_case(ctx, c));
 
